@@ -15,7 +15,7 @@ pub fn def() -> PropDef {
         job_level,
         run_job,
         replay,
-        rule: "configs: ALL 10^4 assignments of a 10-entry fragment menu {key, output chord, (multi mod key), (multi mod _), XX, _, use-defsrc, (layer-while-held other), (layer-switch other), (multi (release-key lctl) (release-layer other))} to 2 layers x 2 keys (defcfg variant rotated over {layer-stack,to-base-layer} x delegate-to-first-layer {no,yes} in quick; all 4 variants in thorough) + curated 3-4 layer configs (stacked held layers, transparent chains, nested _ in multi, release-key/layer across layers) x all 4 variants. Unmapped-key variants: a further key that is NOT in defsrc with process-unmapped-keys yes (must behave as mapped to itself on every layer) and with block-unmapped-keys yes (must produce nothing in every layer state): every sixth 2x2 config in quick, all in thorough, all curated configs (one step less deep). Histories: ALL physically consistent histories of D steps over {press/release of the mapped keys, tick 1, tick 2} (gaps 0,1,2), then released and settled. Oracle: reference model LayeredKeymap (FIFO queue, one event per tick; press = search held layers newest to oldest, default layer, optional first layer, defsrc, continuing below a nested _; release removes what that coordinate put down; output = ordered diff of the key list per tick) compared with the real output trace event by event with tick stamps. states = distinct (real digest) ; traces_validated = executions compared.",
+        rule: "configs: ALL 10^4 assignments of a 10-entry fragment menu {key, output chord, (multi mod key), (multi mod _), XX, _, use-defsrc, (layer-while-held other), (layer-switch other), (multi (release-key lctl) (release-layer other))} to 2 layers x 2 keys (defcfg variant rotated over {layer-stack,to-base-layer} x delegate-to-first-layer {no,yes} in quick and in thorough levels 0 and 2; all 4 variants in thorough level 1) + curated 3-4 layer configs (stacked held layers, transparent chains, nested _ in multi, release-key/layer across layers) x all 4 variants. Unmapped-key variants: a further key that is NOT in defsrc with process-unmapped-keys yes (must behave as mapped to itself on every layer) and with block-unmapped-keys yes (must produce nothing in every layer state): every sixth 2x2 config in quick, all in thorough, all curated configs (one step less deep). Histories: ALL physically consistent histories of D steps over {press/release of the mapped keys, tick 1, tick 2} (gaps 0,1,2), then released and settled. Oracle: reference model LayeredKeymap (FIFO queue, one event per tick; press = search held layers newest to oldest, default layer, optional first layer, defsrc, continuing below a nested _; release removes what that coordinate put down; output = ordered diff of the key list per tick) compared with the real output trace event by event with tick stamps. states = distinct (real digest) ; traces_validated = executions compared.",
         assumptions: &[
             "fragment only: plain keys, output chords, multi, XX, _, use-defsrc, layer-while-held, layer-switch, release-key/layer",
             "fewer than 32 pending events (no queue overflow in this check)",
@@ -298,7 +298,10 @@ fn jobs(tier: Tier) -> &'static Vec<Job> {
         let mut v = vec![];
         let levels: &[(u32, usize, usize, bool)] = match tier {
             Tier::Quick => &[(0, 4, 6, false)],
-            Tier::Thorough => &[(0, 5, 7, true), (1, 6, 8, true)],
+            // level 0: one step deeper than quick with the same variant rotation; level 1: all defcfg
+            // and unmapped-key variants of every config; level 2: two steps deeper (rotation). Levels
+            // beyond 0 are optional under the deadline and reported as completed / capped.
+            Tier::Thorough => &[(0, 5, 7, false), (1, 5, 7, true), (2, 6, 8, false)],
         };
         for (lvl, d_small, d_cur, all_variants) in levels.iter().copied() {
             let mut ci = 0usize;
